@@ -2081,3 +2081,73 @@ def c05_drop(rep, W, rule="C05.DROP"):
     conf = [f for f in (txn_adt["variants"][0]["fields"] if txn_adt else []) if f["name"] == "con"]
     rep.ob(rule, ("sqlite::Txn", "owns-connection"), bool(conf) and conf[0]["ty"] == "rusqlite::Connection",
            "Txn.con : %s (owned: dropping an uncommitted transaction closes the connection, which rolls back and releases the lock)" % (conf[0]["ty"] if conf else "?"))
+
+
+# =========================================================================== S-FAILSTOP
+STEP_CALLEES = (WD.T_TXN, WD.SERVER_TXN, "rusqlite::Connection::execute", "rusqlite::Connection::query_row", "rusqlite::Connection::open")
+
+
+def is_storage_step(d):
+    return d.startswith(WD.STORAGE_TXN + "::") or d in STEP_CALLEES
+
+
+def _adapter_root(t):
+    """Innermost call of an adapter chain  optional(context(map_err(CALL))) -> CALL."""
+    seen = 0
+    while t[0] == "call" and (t[1] in R.ADAPTERS or t[1] in P.OK_PRESERVING) and t[3] and seen < 8:
+        t = t[3][0]
+        seen += 1
+    return t
+
+
+def s_failstop(rep, W, body, rule="S-FAILSTOP"):
+    """Once a storage step has failed, the enclosing function can only report the failure: no further storage step on the
+    failure path (the transaction must be abandoned, not patched up) and no success return."""
+    fn = short_fn(body)
+    g = W.gea(body)
+    pv = W.prov(body)
+    steps = [(bb, t["callee"].get("def", "")) for bb, t in body.calls() if is_storage_step(t["callee"].get("def", ""))]
+    succ_blocks = set(s[0] for s, t in exits(W, body) if not is_error_exit(t))
+    n = 0
+    for bb, d in steps:
+        T = pv.def_term((bb, "T"))
+        atoms = [a for a in g.atoms if a[0] == "VARIANT" and _adapter_root(a[1]) == T]
+        if not atoms:
+            continue
+        n += 1
+        errv = frozenset(["err"])
+        starts = [y for x, ys in g.edges.items() for y in ys
+                  if any(dict(y[1]).get(a) == errv and dict(x[1]).get(a) != errv for a in atoms)]
+        seen = set()
+        stk = list(starts)
+        bad = None
+        step_bbs = dict(steps)
+        while stk and bad is None:
+            x = stk.pop()
+            if x in seen:
+                continue
+            seen.add(x)
+            if x[0] in step_bbs:
+                bad = "another storage step (%s, line %d) is executed after the failure" % (step_bbs[x[0]].split("::")[-1], body.line_of_block(x[0]))
+                break
+            if x[0] in succ_blocks:
+                val = dict(x[1])
+                if any(val.get(a) == errv for a in atoms):
+                    bad = "a non-error return (line %d) is reachable although the step failed" % body.line_of_block(x[0])
+                    break
+            for y in g.edges.get(x, ()):
+                stk.append(y)
+        rep.ob(rule, (fn, ordinal_key(body, d, bb)), bad is None,
+               "failure of %s %s" % (d.split("::")[-1], "leads only to an error return" if bad is None else ": " + bad), where(body, bb))
+    return n
+
+
+def s_failstop_all(rep, W, rule="S-FAILSTOP"):
+    n = 0
+    bodies = [W.op(o) for o in WD.OPS] + [W.handler("add_version"), W.body(WD.SERVER_TXN)]
+    for backend in ("sqlite", "inmemory"):
+        bodies += [W.impl_method(backend, mth) for mth in WD.ALL_METHODS] + [W.impl_storage_txn(backend)]
+    bodies += [W.body(WD.SQLITE + "::SqliteStorage::new"), W.body(WD.SQLITE + "::SqliteStorage::new_connection"), W.body(WD.SQLITE + "::Txn::get_version_impl")]
+    for b in bodies:
+        n += s_failstop(rep, W, b, rule)
+    rep.floor(rule, "storage steps with a visible failure edge", n, 20)
